@@ -30,6 +30,13 @@ class FullEngine(Engine):
         if isinstance(e, ast.Name):
             if e.id not in st.env:
                 if e.id in self.spec.ghost: return PV(None, self.old[e.id])
+                if any(isinstance(x, ast.Name) and isinstance(x.ctx, ast.Store) and x.id == e.id for x in ast.walk(self.fn)):
+                    # a local that is bound on other paths only: UnboundLocalError here
+                    self.oblige(st, 'safety', 'bound-local[%s]' % e.id, BoolVal(False))
+                    lt = self.spec.locals.get(e.id)
+                    if lt is None: raise Unsupported('local %s is read on a path that never binds it' % e.id)
+                    st.pc.pop()                                  # (do not assume False: go on with an arbitrary value of the declared type)
+                    v = self.from_term(st, lt, FreshConst(lt.sort(), 'unbound_' + e.id), frozen=False); st.env[e.id] = v; return v
                 raise Unsupported('unknown name ' + e.id)
             v = st.env[e.id]
             if isinstance(v, PMaybe):
@@ -92,15 +99,51 @@ class FullEngine(Engine):
                 ft = obj.t.ftype(e.attr)
                 if isinstance(ft, (TList, TDict, TObj)): return PRef(ft, obj.root, obj.path + (e.attr,))
                 return PV(ft, obj.t.get(self.term(st, obj), e.attr))
+        if self.is_opq(obj): return self.opq(st, 'attr_' + e.attr, [obj])
         ol = self.as_list(obj)
         if isinstance(ol, PRef) and isinstance(ol.t, TList) and e.attr == 'shape':      # numpy 1-d array modelled as a list: shape == (len,)
             return PTup([PV(INT, ol.t.th().Len(self.term(st, ol)))])
         raise Unsupported('attribute ' + ast.unparse(e))
 
+    def coerce(self, st, v, t):
+        if isinstance(v, PV) and isinstance(v.t, TOpaque) and v.t.name == 'Opq' and not isinstance(t, TOpaque):
+            if isinstance(t, TReal): return OpqReal(v.term)
+            if isinstance(t, TInt): return OpqInt(v.term)
+            if isinstance(t, TBool): return OpqTruth(v.term)
+            if isinstance(t, TVal): return OpqVal(v.term)
+        if isinstance(t, TOpaque) and t.name == 'Opq' and isinstance(v, (PV, PRef, PTup)) and not (isinstance(v, PV) and isinstance(v.t, TOpaque)):
+            return opaque_apply('box_' + repr(self.type_of(v)), [self.term(st, v)])
+        return super().coerce(st, v, t)
+
+    def is_opq(self, v):
+        return isinstance(v, PV) and isinstance(v.t, TOpaque) and v.t.name == 'Opq'
+
+    def opq(self, st, tag, vals):
+        terms = []
+        for v in vals:
+            if isinstance(v, PNone): terms.append(Const('lib_None', OPQ.sort())); continue
+            terms.append(self.term(st, v))
+        return PV(OPQ, opaque_apply(tag, terms))
+
+    def truth(self, st, v):
+        if self.is_opq(v): return OpqTruth(v.term)
+        return super().truth(st, v)
+
     def num(self, st, v, t):
         return self.coerce(st, v, t)
 
     def binop(self, st, op, a, b, what=''):
+        if self.is_opq(a) or self.is_opq(b):
+            arith = isinstance(op, (ast.Add, ast.Sub, ast.Mult, ast.Div))
+            other = b if self.is_opq(a) else a
+            if arith and (self.is_opq(other) or (isinstance(other, PV) and isinstance(other.t, (TInt, TReal)))):
+                # numbers coming out of numpy / pandas: real arithmetic; division follows numpy (inf / nan, no ZeroDivisionError)
+                x, y = self.coerce(st, a, REAL), self.coerce(st, b, REAL)
+                if isinstance(op, ast.Add): return PV(REAL, x + y)
+                if isinstance(op, ast.Sub): return PV(REAL, x - y)
+                if isinstance(op, ast.Mult): return PV(REAL, x * y)
+                return PV(REAL, NumpyDiv(x, y))
+            return self.opq(st, 'op_' + type(op).__name__, [a if self.is_opq(a) else PV(OPQ, self.coerce(st, a, OPQ)), b if self.is_opq(b) else PV(OPQ, self.coerce(st, b, OPQ))])
         al, bl = self.as_list(a), self.as_list(b)
         if isinstance(op, ast.Add) and isinstance(al, PRef) and isinstance(al.t, TList):
             self.need_not_none(st, a, what + ':left'); self.need_not_none(st, b, what + ':right')
@@ -122,6 +165,7 @@ class FullEngine(Engine):
             if isinstance(op, ast.Sub): return PV(t, x - y)
             if isinstance(op, ast.Mult): return PV(t, x * y)
             if isinstance(op, ast.Div):
+                if self.spec.numpy_division: return PV(REAL, NumpyDiv(x, y))          # contract says: operands are numpy scalars (inf / nan, no exception)
                 self.oblige(st, 'safety', 'division-by-zero[%s]' % what, y != 0); return PV(REAL, x / y)
         raise Unsupported('binary operation ' + what)
 
@@ -145,7 +189,14 @@ class FullEngine(Engine):
                 if isinstance(c.t, TDict): x = self.coerce(st, val(i, c.t.k), c.t.k); h = c.t.has(self.term(st, c), x)
                 else: x = self.coerce(st, val(i, c.t.elem), c.t.elem); h = c.t.th().Has(self.term(st, c), x)
                 cs.append(h if isinstance(op, ast.In) else Not(h)); continue
-            a = val(i); b = val(i + 1, hint=self.type_of(a) if isinstance(a, (PV, PRef)) else None)
+            a = val(i); b = val(i + 1, hint=self.type_of(a) if isinstance(a, (PV, PRef)) and not self.is_opq(a) else None)
+            if self.is_opq(a) or self.is_opq(b):
+                o = b if self.is_opq(a) else a
+                if isinstance(o, PV) and isinstance(o.t, (TInt, TReal)) and isinstance(op, (ast.Lt, ast.LtE, ast.Gt, ast.GtE)):
+                    x, y = self.coerce(st, a, REAL), self.coerce(st, b, REAL)
+                    cs.append({ast.Lt: x < y, ast.LtE: x <= y, ast.Gt: x > y, ast.GtE: x >= y}[type(op)]); continue
+                r = self.opq(st, 'cmp_' + type(op).__name__, [a if self.is_opq(a) else PV(OPQ, self.coerce(st, a, OPQ)), b if self.is_opq(b) else PV(OPQ, self.coerce(st, b, OPQ))])
+                cs.append(OpqTruth(r.term)); continue
             if isinstance(a, PNone) or isinstance(b, PNone):
                 if isinstance(op, (ast.Eq, ast.NotEq)):
                     o = b if isinstance(a, PNone) else a
@@ -196,6 +247,9 @@ class FullEngine(Engine):
     def subscript(self, e, st):
         base0 = self.expr(e.value, st)
         if isinstance(base0, PTup) and isinstance(e.slice, ast.Constant): return base0.items[e.slice.value]
+        if self.is_opq(base0):
+            if isinstance(e.slice, ast.Slice): return self.opq(st, 'slice_' + ast.unparse(e.slice), [base0])
+            k = self.expr(e.slice, st); return self.opq(st, 'getitem', [base0, k if self.is_opq(k) else PV(OPQ, self.coerce(st, k, OPQ))])
         base = base0 if isinstance(getattr(base0, 't', None), TDict) else self.as_list(base0)
         if not isinstance(base, PRef): raise Unsupported('subscript of ' + ast.unparse(e.value))
         self.need_not_none(st, base, ast.unparse(e.value))
@@ -329,7 +383,7 @@ class FullEngine(Engine):
         if name in ('isinstance', 'hasattr'): return self.static_type_test(c, name, st)
         if name == 'any' or name == 'all': return self.any_all(c, name, st)
         if name in ('max', 'min') and len(A) == 2:
-            a, b = self.expr(A[0], st), self.expr(A[1], st); t = REAL if isinstance(a.t, TReal) or isinstance(b.t, TReal) else INT
+            a, b = self.expr(A[0], st), self.expr(A[1], st); t = REAL if isinstance(a.t, TReal) or isinstance(b.t, TReal) or self.is_opq(a) or self.is_opq(b) else INT
             x, y = self.coerce(st, a, t), self.coerce(st, b, t)
             return PV(t, If(x >= y, x, y) if name == 'max' else If(x <= y, x, y))
         if name == 'abs':
@@ -355,6 +409,9 @@ class FullEngine(Engine):
             ok = [sp for sp in cands if fits(sp) and types_fit(sp)]
             if not ok: raise Unsupported('no overload of %s fits the call %s' % (name, ast.unparse(c)[:60]))
             return self.call_contract(ok[0], c, None, st)
+        if name in self.spec.opaque_functions:
+            args = [self.expr(a, st) for a in c.args] + [self.expr(kw.value, st) for kw in c.keywords if kw.arg]
+            return self.opq(st, 'fn_%s_%s' % (name, '_'.join(kw.arg for kw in c.keywords if kw.arg)), [a if self.is_opq(a) else PV(OPQ, self.coerce(st, a, OPQ)) for a in args])
         raise Unsupported('call of ' + name)
 
     def static_type_test(self, c, name, st):
@@ -423,6 +480,9 @@ class FullEngine(Engine):
         recv = self.expr(f.value, st)
         if isinstance(recv, PRef): self.need_not_none(st, recv, ast.unparse(f.value))
         m = f.attr
+        if self.is_opq(recv):
+            args = [self.expr(a, st) for a in c.args] + [self.expr(kw.value, st) for kw in c.keywords if kw.arg]
+            return self.opq(st, 'meth_%s_%s' % (m, '_'.join(kw.arg for kw in c.keywords if kw.arg)), [recv] + [a if self.is_opq(a) else PV(OPQ, self.coerce(st, a, OPQ)) for a in args])
         if isinstance(recv, PRef) and isinstance(recv.t, TObj):
             q = recv.t.name + '.' + m
             if q in self.specs: return self.call_contract(self.specs[q], c, recv, st)
@@ -512,7 +572,11 @@ class FullEngine(Engine):
             args[pos[0]] = recv; pos = pos[1:]
         ptypes = dict(C.params)
         for n, a in zip(pos, c.args): args[n] = self.expr(a, st, hint=ptypes[n])
-        for kw in c.keywords: args[kw.arg] = self.expr(kw.value, st, hint=ptypes.get(kw.arg))
+        for kw in c.keywords:
+            if kw.arg is None:
+                if 'kwargs' in ptypes: args['kwargs'] = self.expr(kw.value, st)          # **kwargs handed on
+                continue
+            args[kw.arg] = self.expr(kw.value, st, hint=ptypes.get(kw.arg))
         for (n, t) in C.params:
             if n not in args:
                 if n not in C.defaults: raise Unsupported('missing argument %s of %s' % (n, C.qual))
@@ -542,7 +606,9 @@ class FullEngine(Engine):
             if n not in new and isinstance(args.get(n), PRef): new[n] = old[n]
         rt = C.returns
         res = FreshConst(rt.sort(), 'r') if rt is not None else None
-        for label, g in C.ensures(old, new, res): st.pc.append(g)
+        import inspect
+        ens = C.ensures(old, new, res, None) if len(inspect.signature(C.ensures).parameters) >= 4 else C.ensures(old, new, res)     # (a caller never sees the callee's locals)
+        for label, g in ens: st.pc.append(g)
         if rt is None: return PNone()
         return self.from_term(st, rt, res, frozen=False)
 
@@ -581,4 +647,20 @@ class FullEngine(Engine):
 
 
 IsStr = Function('IsStr', Val, BoolSort())
+NumpyDiv = Function('NumpyDiv', RealSort(), RealSort(), RealSort())        # x / y on numpy scalars (inf / nan instead of an exception)
 IntAsValTrig = Function('IdxTrig', IntSort(), BoolSort())
+
+
+# ------------------------------------------------------------------------------------------------- opaque library values
+OPQ = TOpaque('Opq')
+OpqReal = Function('OpqAsReal', OPQ.sort(), RealSort()); OpqInt = Function('OpqAsInt', OPQ.sort(), IntSort()); OpqTruth = Function('OpqTruth', OPQ.sort(), BoolSort())
+OpqVal = Function('OpqAsVal', OPQ.sort(), Val)
+_opq_fns = {}
+
+
+def opaque_apply(tag, terms):
+    """value of a library operation: an uninterpreted function, keyed by the operation, of the values it is applied to (pure, deterministic: DESIGN 3.4)"""
+    sig = tuple(str(t.sort()) for t in terms); key = (tag, sig)
+    if key not in _opq_fns:
+        _opq_fns[key] = Function('lib_%s_%d' % (''.join(ch if ch.isalnum() else '_' for ch in tag)[:40], len(_opq_fns)), *([t.sort() for t in terms] + [OPQ.sort()]))
+    return _opq_fns[key](*terms) if terms else Const('libc_%s' % tag, OPQ.sort())
